@@ -14,7 +14,7 @@
      cs fres f               LFres frames; FSFpoll when the result is there; fres ids are creation ordinals = model future indices
                              (the caller's FTop step is taken at `new fres`)
      cs dwaker d / dblwaker  FWakeWith d _, FWake (WDrain d) / FWake (WDouble k)
-     api FIRE e, os send/txdrop            FFire e         api AWAITREG e, os poll pending      FJob .. PAwait e (not fired)
+     api FIRE e, api RESUME                FFire e         api AWAITREG e, os poll pending      FJob .. PAwait e (not fired)
      api AWAITREADY e, os poll value/canceled   FJob .. PAwait e (fired)
      api TWAKE t             FWake (WTask c) and the FUnpark c behind it        api UNPARKED        FPark
    Silent frames (LNone) are stepped lazily, just before the actor's next logged event.  FUnpark c frames are taken when c's
@@ -22,6 +22,18 @@
    end of next_to_run) are stutters: listed after the step they follow (post) or accepted when the snapshot agrees with the
    model's current view.  After every step that the log shows, the `core` snapshot (state name, queue length), the `sched`
    length and the `dwaker` state must agree with the model.
+   Details that the log forces on the driver
+     signaller     signal = [fres f: take the waker]; waker.wake(..) (model: FWake frames); Drop of the signaller = [fres f] again.
+                   The second section is not in the model: it is `deferred` and may arrive any time after the wake frames.
+     QueueResumer  the oneshot shim logs `os send` / `os txdrop` AFTER the channel operation and after the receiver's waker has
+                   run, and `send` yields first: the harness marker `api RESUME` arms the fire, the FFire step is taken at the
+                   firing actor's next event or at the first `os poll` that sees the value; os send/txdrop only check `fired`.
+     sync job      ready/syncres are not replayed: the runner's silent FJob (JSync) step is forced when the waiting
+                   sync_background caller (FSBwait) moves on (like FUnpark for the park token).
+     end of log    the replay stops at `api QUIET` (pool >= 1; wait_all returned) or `api END` (pool 0: the harness then drains
+                   the queues itself).  Every caller must have finished its script at END; at QUIET no job may be left
+                   (programs without suspend: the harness counts a suspend as finished when its resumer is used); the pool
+                   runners may still be inside drain / next_to_run, their last sections come after QUIET.
    Ignored classes: busy, threads, max (pool hand-over, abstracted), ready, syncres (sync's private protocol), kind `sf`.
    SKIP (not expressible in the model): see parse_prog and Unsupported below.
    Usage: replay_l2 [--trace] file.log ... *)
@@ -204,12 +216,12 @@ let reverse_wakes (s : state) (a : int) (n : int) : state =
         let (revd, rest) = split n ac.stack [] in { ac with stack = revd @ rest }) s.actors }
 
 (* ---------- replay ---------- *)
-type stats = { mutable steps : int; mutable labelled : int; mutable stutters : int; mutable reorders : int }
+type stats = { mutable steps : int; mutable labelled : int; mutable stutters : int; mutable reorders : int; mutable rereg : int }
 
 let replay (p : pinfo) (evs : ev array) : stats =
   let ncallers = List.length p.scripts in
   let s = ref (init p.scripts (nat_of_int p.pool) (nat_of_int p.nev)) in
-  let st = { steps = 0; labelled = 0; stutters = 0; reorders = 0 } in
+  let st = { steps = 0; labelled = 0; stutters = 0; reorders = 0; rereg = 0 } in
   let cur = ref 0 in
   let div fmt = Printf.ksprintf (fun m -> raise (Diverge (Printf.sprintf "event %d: %s" !cur m))) fmt in
   let actor_of : (int, int) Hashtbl.t = Hashtbl.create 8 in
@@ -233,6 +245,11 @@ let replay (p : pinfo) (evs : ev array) : stats =
     | Some s1 ->
       let s1 = (match fr with
           | FFire e -> let n = List.length (getev !s (i e)).wakers in if n >= 2 then st.reorders <- st.reorders + 1; reverse_wakes s1 a n
+          (* a suspend's resume channel is a futures oneshot: a second poll REPLACES the registered waker, the model's event cell
+             (Model.v FJob .. PAwait: wakers := w :: wakers) keeps both and would wake twice at the fire: keep the newest only *)
+          | FJob (JFut (_, _, PAwait e :: _), _, _) when List.mem (i e) p.susp_ev && List.length (getev s1 (i e)).wakers >= 2 ->
+            st.rereg <- st.rereg + 1;
+            { s1 with evs = List.mapi (fun k (c : evcell) -> if k = i e then { c with wakers = [List.hd c.wakers] } else c) s1.evs }
           | _ -> s1) in
       let post = post_of !s a fr s1 in
       if !trace then Printf.printf "  [event %d] actor %d steps %s (%s) -> %s/%d\n" !cur a (show_frame fr) why (show_qs s1.qs) (List.length s1.jobs);
@@ -244,6 +261,11 @@ let replay (p : pinfo) (evs : ev array) : stats =
     List.iteri (fun b (ac : arec) -> match ac.stack with
         | FUnpark c :: _ when i c = a && b <> a -> ignore (raw_step b (Printf.sprintf "unpark of actor %d" a))
         | _ -> ()) !s.actors in
+  (* sync_background waits for its job (ready/syncres are not replayed): the runner's silent FJob (JSync) step may be outstanding *)
+  let give_sres a =
+    List.iteri (fun b (ac : arec) -> match ac.stack with
+        | FJob (JSync (_, c, None), _, _) :: _ when i c = a && b <> a && getp b = [] -> ignore (raw_step b (Printf.sprintf "sync job of actor %d" a))
+        | _ -> ()) !s.actors in
   (* silent frames of actor a, until a frame that shows in the log (returned), a blocked frame or post-sections to wait for *)
   let rec settle a guard : lab option =
     if guard = 0 then div "actor %d: too many silent steps" a;
@@ -254,7 +276,7 @@ let replay (p : pinfo) (evs : ev array) : stats =
         (match at_of !s fr with
          | Some l -> Some l
          | None ->
-           (match fr with FROpark _ when not (arec a).token -> give_token a | _ -> ());
+           (match fr with FROpark _ when not (arec a).token -> give_token a | FSBwait when not (arec a).sres -> give_sres a | _ -> ());
            (match raw_step a "silent" with
             | Some _ -> settle a (guard - 1)
             | None -> None)) in
@@ -278,8 +300,9 @@ let replay (p : pinfo) (evs : ev array) : stats =
       Hashtbl.replace pend a r;
       if not (agrees !s lab snap) then div "actor %d: %s inside a model step: impl=%s model=%s" a (show_lab lab) snap (model_view !s lab);
       st.stutters <- st.stutters + 1
-    | l when List.for_all (function Fres _ -> true | _ -> false) l ->
+    | (_ :: _ as l) when List.for_all (function Fres _ -> true | _ -> false) l ->
       Hashtbl.replace deferred a (getd a @ l); Hashtbl.replace pend a []; handle a lab snap
+    | _ :: _ when take_deferred a lab -> st.stutters <- st.stutters + 1
     | _ :: _ -> stutter a lab snap "while read-only sections of the previous step are outstanding"
     | [] ->
       (match settle a 200 with
@@ -308,8 +331,19 @@ let replay (p : pinfo) (evs : ev array) : stats =
           | _ -> stutter a lab snap (Printf.sprintf "the model expects %s" (show_lab at)))) in
   let n = Array.length evs in
   let ended = ref false in
+  (* QueueResumer: api RESUME is logged before the shim's yield and the channel operation, os send/txdrop after the receiver's
+     waker has already run: the fire step is taken at the firing actor's next event or at the first poll that sees the value *)
+  let pfire : (int, int) Hashtbl.t = Hashtbl.create 4 in
+  let seen_fres : (int, unit) Hashtbl.t = Hashtbl.create 8 in
+  let held_sched : (int, unit) Hashtbl.t = Hashtbl.create 4 in
+  let in_sbwait a = (match top_of !s a with Some FSBwait | Some FSBdone -> true | _ -> false) in
+  let flush_fire a = match Hashtbl.find_opt pfire a with
+    | Some x -> Hashtbl.remove pfire a; handle a (Fire x) ""
+    | None -> () in
+  let flush_fire_ev x = Hashtbl.iter (fun a y -> if y = x then (Hashtbl.remove pfire a; handle a (Fire x) "")) (Hashtbl.copy pfire) in
   (* at END every caller has finished its script in the implementation: the model's callers must get there by silent steps *)
   let at_end () =
+    Hashtbl.iter (fun a x -> Hashtbl.remove pfire a; handle a (Fire x) "") (Hashtbl.copy pfire);
     for a = 0 to ncallers - 1 do
       (match settle a 200 with _ -> ());
       (match top_of !s a with
@@ -320,12 +354,13 @@ let replay (p : pinfo) (evs : ev array) : stats =
     | "cs", ("core" | "sched" | "fres" | "dwaker" | "dblwaker") -> true
     | "new", ("fres" | "dwaker" | "dblwaker" | "oneshot") -> true
     | "os", _ -> true
-    | "api", ("FIRE" | "AWAITREG" | "AWAITREADY" | "TWAKE" | "UNPARKED") -> true
+    | "api", ("RESUME" | "FIRE" | "AWAITREG" | "AWAITREADY" | "TWAKE" | "UNPARKED") -> true
     | _ -> false in
   let is_hev e = List.mem e p.harness_evs in
   for k = 0 to n - 1 do
     cur := k;
     let e = evs.(k) in
+    if e.kind = "acq" && e.cls = "sched" then Hashtbl.replace held_sched e.task ();
     if e.kind = "api" && e.cls = "CALLER" then Hashtbl.replace actor_of e.task e.id
     else if e.kind = "api" && e.cls = "END" then begin
       at_end (); ended := true
@@ -337,9 +372,12 @@ let replay (p : pinfo) (evs : ev array) : stats =
           | None ->
             if !npool_seen >= p.pool then div "task %d is neither a caller nor one of the %d pool runners (%s %s)" e.task p.pool e.kind e.cls;
             let a = ncallers + !npool_seen in incr npool_seen; Hashtbl.replace actor_of e.task a; a) in
+      if not (e.kind = "api" && e.cls = "RESUME") then flush_fire a;
       match e.kind, e.cls with
       | "new", "fres" ->
         (* the caller creates a SchedulerFuture: its FTop step allocates the model's future cell(s) *)
+        if Hashtbl.mem seen_fres e.id then div "future result %d created twice" e.id;
+        Hashtbl.replace seen_fres e.id ();
         if e.id >= List.length !s.futs then begin
           handle a NewF "";
           if e.id >= List.length !s.futs then div "future result %d created, the model has %d futures" e.id (List.length !s.futs)
@@ -356,17 +394,35 @@ let replay (p : pinfo) (evs : ev array) : stats =
          | None -> raise (Unsupported "a oneshot channel that is not the resume channel of a suspend")
          | Some ev ->
            (match c, e.snap with
-            | ("send" | "txdrop"), _ -> handle a (Fire ev) ""
+            | ("send" | "txdrop"), _ ->
+              (* logged by the shim AFTER the channel operation (which already called the receiver's waker): the model step was
+                 taken at the harness marker api RESUME, here only the agreement is checked *)
+              if not (getev !s ev).fired then div "oneshot %d (model event %d) was sent/dropped but the model's event has not fired" e.id ev
             | "poll", "pending" -> handle a (Reg ev) ""
-            | "poll", _ -> handle a (Rdy ev) ""
+            | "poll", _ -> flush_fire_ev ev; handle a (Rdy ev) ""
             | _ -> ()))
       | "api", "FIRE" -> if not (is_hev e.id) || (match top_of !s a with Some (FTop (OFire x :: _)) -> i x = e.id | Some (FFire x) -> i x = e.id | _ -> false) then handle a (Fire e.id) ""
+      | "api", "RESUME" ->
+        (match settle a 200 with _ -> ());
+        (match top_of !s a with
+         | Some (FTop (OFire x :: _)) | Some (FFire x) -> if Hashtbl.mem pfire a then div "actor %d: two RESUME markers without a channel operation" a; Hashtbl.replace pfire a (i x)
+         | _ -> div "actor %d resumes/drops a QueueResumer, the model is at %s" a (show_top a))
       | "api", "AWAITREG" -> if not (is_hev e.id) then handle a (Reg e.id) ""
       | "api", "AWAITREADY" -> if not (is_hev e.id) then handle a (Rdy e.id) ""
       | "api", "TWAKE" -> (match Hashtbl.find_opt actor_of e.id with Some c -> handle a (Twake c) "" | None -> ())
       | "api", "UNPARKED" -> handle a Unparked ""
+      | "cs", "core" when Hashtbl.mem held_sched e.task && getp a = [] && in_sbwait a ->
+        (* claim_pending_queue of the sync_background waiter (core.rs:70: schedule lock, core nested): not in the model (FSBwait is
+           abstract).  A failed claim is read-only; a successful one (Idle|Pending -> Running, even after the job has already been
+           run by the pool) starts the waiter's own run/Idle/reschedule path, which the model does not have *)
+        if agrees !s Core e.snap then st.stutters <- st.stutters + 1
+        else raise (Unsupported "sync_background claims (steals) the queue: the model abstracts the waiter's steal path (L1)")
       | "cs", "core" -> handle a Core e.snap
-      | "cs", "sched" -> handle a Sched e.snap
+      | "cs", "sched" when getp a = [] && in_sbwait a ->        (* the end of claim_pending_queue: no model step, no silent steps *)
+        Hashtbl.remove held_sched e.task;
+        if agrees !s Sched e.snap then st.stutters <- st.stutters + 1
+        else raise (Unsupported "sync_background claims (steals) the queue: the model abstracts the waiter's steal path (L1)")
+      | "cs", "sched" -> Hashtbl.remove held_sched e.task; handle a Sched e.snap
       | "cs", "fres" -> handle a (Fres e.id) ""
       | "cs", "dwaker" -> handle a (Dw e.id) e.snap
       | "cs", "dblwaker" -> handle a (Dbl e.id) ""
@@ -376,15 +432,15 @@ let replay (p : pinfo) (evs : ev array) : stats =
   cur := n;
   if not !ended then at_end ();
   (* at QUIET (pool >= 1) every operation has finished: no job is left (the runner may still be on its way out of drain) *)
-  Hashtbl.iter (fun a l -> if l <> [] && (p.pool >= 1 || !ended) then div "actor %d: the signaller's Drop section (%s) never came" a (show_lab (List.hd l))) deferred;
-  if p.pool >= 1 && !s.jobs <> [] then div "at QUIET the model's queue still holds %d job(s) (%s)" (List.length !s.jobs) (core_snap !s);
+  Hashtbl.iter (fun a l -> if l <> [] && p.pool = 0 then div "actor %d: the signaller's Drop section (%s) never came" a (show_lab (List.hd l))) deferred;
+  if p.pool >= 1 && p.susp_ev = [] && !s.jobs <> [] then div "at QUIET the model's queue still holds %d job(s) (%s)" (List.length !s.jobs) (core_snap !s);
   st
 
 (* ---------- main ---------- *)
 let () =
   let args = List.tl (Array.to_list Sys.argv) in
   let files = List.filter (fun a -> if a = "--trace" then (trace := true; false) else true) args in
-  let ok = ref 0 and bad = ref 0 and skipped = ref 0 and steps = ref 0 and labelled = ref 0 and stutters = ref 0 and events = ref 0 and reorders = ref 0 in
+  let ok = ref 0 and bad = ref 0 and skipped = ref 0 and steps = ref 0 and labelled = ref 0 and stutters = ref 0 and events = ref 0 and reorders = ref 0 and rereg = ref 0 in
   let skips : (string, int) Hashtbl.t = Hashtbl.create 16 in
   let skip file why = incr skipped; Hashtbl.replace skips why (1 + (match Hashtbl.find_opt skips why with Some n -> n | None -> 0)); Printf.printf "SKIP\t%s\t%s\n" file why in
   List.iter (fun file ->
@@ -407,11 +463,11 @@ let () =
         (try
            let p = parse_prog !prog in
            let st = replay p evs in
-           incr ok; steps := !steps + st.steps; labelled := !labelled + st.labelled; stutters := !stutters + st.stutters; reorders := !reorders + st.reorders;
+           incr ok; steps := !steps + st.steps; labelled := !labelled + st.labelled; stutters := !stutters + st.stutters; reorders := !reorders + st.reorders; rereg := !rereg + st.rereg;
            events := !events + Array.length evs;
            Printf.printf "OK\t%s\t%d\t%d\n" file st.steps st.labelled
          with
          | Diverge msg -> incr bad; Printf.printf "DIVERGE\t%s\t%s\t%s\n" file !prog msg
          | Unsupported why -> skip file why)) files;
   Hashtbl.iter (fun why n -> Printf.printf "SKIPS\t%d\t%s\n" n why) skips;
-  Printf.printf "SUMMARY\tok=%d\tdiverged=%d\tskipped=%d\tmodel_steps=%d\tlabelled_steps=%d\tstutters=%d\twake_reorders=%d\tevents=%d\n" !ok !bad !skipped !steps !labelled !stutters !reorders !events
+  Printf.printf "SUMMARY\tok=%d\tdiverged=%d\tskipped=%d\tmodel_steps=%d\tlabelled_steps=%d\tstutters=%d\twake_reorders=%d\toneshot_rereg=%d\tevents=%d\n" !ok !bad !skipped !steps !labelled !stutters !reorders !rereg !events
